@@ -36,6 +36,9 @@ def make_cases(tier, rng):
             # ... and a runner whose address translation is not the identity (Unix sockets published across as TCP forwards)
             add("process", [g.est(rng, keep=True) for _ in range(5)], "translating-runner", tls=tls, launch=launch)
             cases[-1]["translate"] = "tcpforward"
+            # ... or a bind mount: the plugin sees the socket directory under another path; each direction has its own translation
+            add("process", [g.est(rng, keep=True) for _ in range(5)], "translating-runner", tls=tls, launch=launch)
+            cases[-1]["translate"] = "symlink"
     # two ids on one dialling broker whose waits overlap: one dial sits out most of its window (its accept comes late)
     # while another id, accepted early, is dialled meanwhile -- dials of different ids must not wait for each other
     for pair in (["inproc", "process"] if tier == "quick" else ["inproc", "process"] * 3):
